@@ -78,7 +78,13 @@ def h_rendezvous(ctx, plan):
         if beh == 1:
           for n in NAMES:
             if n not in core.components:
-              do_register(n); break
+              do_register(n)
+              # "immediately once they are": by the time register() returns - here, inside another waiter's callback - every declared waiter
+              # whose components are now all registered has run
+              for w2, (deps2, b2) in list(waiters.items()):
+                if all(d in registry for d in deps2):
+                  ctx.check('nested registration: waiter %d has run when register() returns inside a callback' % w2, any(x[0] == w2 for x in fired))
+              break
         elif beh == 2:
           raise Boom()
       cb.__name__ = 'cb%d' % w
